@@ -35,7 +35,8 @@ Sections 2–4 are about the MODEL of the deterministic S2 meshes (`OrixModel/Sa
     Other hemispheres / offsets in `[0, 1)`: every mesh vector lies in the requested closed hemisphere
     (`uv_mesh_in_hemisphere`, either flag) and, for the grid with its pole duplicates, every direction of that hemisphere
     has a mesh vector within squared chord `(5/4)·(r·π/180)²` (`uv_hemisphere_grid_covers`: one full polar step, half an
-    azimuth step modulo 2π).  With an offset AND pole-duplicate removal no covering is proved (the ring next to the pole
+    azimuth step modulo 2π); with offset 0 the same after pole-duplicate removal for `r ≥ 0.002°`
+    (`uv_hemisphere_mesh_covers`).  With an offset AND pole-duplicate removal no covering is proved (the ring next to the pole
     can be removed entirely when `offset·step` is inside the `np.isclose` window).
   * cube meshes: unit vectors and the count `6·(2·steps)² + 2` for all three grid types; for the normalized grid the
     spacing `1/steps ≤ tan r`, "the six face lists and the two corners contain every lattice point of the cube surface",
@@ -383,6 +384,33 @@ theorem uv_hemisphere_grid_covers (r : ℝ) (hr : 0 < r) (h : Hemisphere) (off :
   refine ⟨(azLineO r off j, polLineH h r off i), ?_, rfl⟩
   rw [mem_meshAP, haz]
   exact ⟨List.mem_map.mpr ⟨j, List.mem_range.mpr hj, rfl⟩, hpol i hi⟩
+
+/-- COVERING THEOREM for `sample_S2_uv_mesh(r, hemisphere, offset=0, remove_pole_duplicates)` — every hemisphere, either
+flag, every `r ≥ 0.002°`: every direction of the requested closed hemisphere has a mesh vector within squared chord
+`(5/4)·(r·π/180)²` -/
+theorem uv_hemisphere_mesh_covers (r : ℝ) (hr : 1 / 500 ≤ r) (h : Hemisphere) (rm : Bool)
+    (vs : List (Vec3 ℝ)) (hok : uvMesh r h (0 : ℝ) rm = .ok vs) (v : Vec3 ℝ) (hv : Vec3.normSq v = 1)
+    (hin : InHemisphere h v) :
+    ∃ g ∈ vs, Vec3.normSq (Vec3.sub v g) ≤ 5 / 4 * (r * Real.pi / 180) ^ 2 := by
+  have hr0 : 0 < r := by linarith
+  cases rm
+  · exact uv_hemisphere_grid_covers r hr0 h 0 (le_refl _) (by norm_num) vs hok v hv hin
+  · obtain ⟨θ, φ, h0, h1, h2, h3, rfl⟩ := exists_sph v hv
+    have hθ := (inHemisphere_sph h h0 h1).mp hin
+    obtain ⟨i, j, hi, hj, hd⟩ := uv_node_near_hemi hr0 h (le_refl (0 : ℝ)) (by norm_num) hθ.1 hθ.2 h2 h3.le
+    obtain ⟨j', hj', heq, hkeep⟩ := uv_kept_node_hemi hr h hi hj
+    refine ⟨sph (polLineH h r 0 i) (azLineO r 0 j'), ?_, by rw [heq]; exact hd⟩
+    obtain ⟨c, hc, haz, hpol, -⟩ := uvCoordinates_hemi r hr0 h 0 (le_refl _) (by norm_num)
+    simp only [uvMesh, uvMeshNodes, hc, if_true] at hok
+    cases hok
+    rw [← nodeVector_eq]
+    apply List.mem_map.mpr
+    refine ⟨(azLineO r 0 j', polLineH h r 0 i), ?_, rfl⟩
+    simp only [removePoleDuplicates]
+    apply List.mem_filter.mpr
+    refine ⟨?_, by simp [hkeep]⟩
+    rw [mem_meshAP, haz]
+    exact ⟨List.mem_map.mpr ⟨j', List.mem_range.mpr hj', rfl⟩, hpol i hi⟩
 
 /-! ## 3. equal-area mesh -/
 
